@@ -156,6 +156,13 @@ CATALOGUE = {
 }
 
 
+CATALOGUE['C01'].append((F, 'R-VARSTORE', 'core/_files.py', "                    outf.copyVariable(vv, key=vk, withdata=True)\n                    continue\n                ndims", "                    outf.variables[vk] = vv\n                    continue\n                ndims"))
+CATALOGUE['C07'].append((F, 'R-ATTRALL', 'pncgen.py', "ignore_global_properties = ['variables', 'dimensions']", "ignore_global_properties = ['variables', 'dimensions', 'history']"))
+CATALOGUE['C07'].append((F, 'R-ITERORDER', 'pncgen.py', '        for k in pfile.variables.keys():\n            if self.verbose:\n                print("Defining"', '        for k in sorted(pfile.variables.keys()):\n            if self.verbose:\n                print("Defining"'))
+CATALOGUE['C19'].append((F, 'R-LINESTATE', 'icarttfiles/ffi1001.py', "USER_COMMENT_COUNT_LINE = (12 + len(missing) + 2 +", "USER_COMMENT_COUNT_LINE = (12 + len(missing) + 1 +"))
+CATALOGUE['C20'].append((F, 'R-RECLEN', 'noaafiles/_arl.py', "(50 + ncell - hlen - thdtype.itemsize)", "(52 + ncell - hlen - thdtype.itemsize)"))
+
+
 def _findings(prop, overlay):
     warnings.simplefilter('ignore')
     mod = importlib.import_module('pncstatic.rules.%s' % prop.lower())
